@@ -364,3 +364,65 @@ func rsHas(b []byte, s string) bool {
 	}
 	return false
 }
+
+// VerifSVGLengthUnits (C05): <svg><rect ATTR="<n digits><unit>"/></svg> for length attributes and the SVG / CSS absolute and
+// relative units: same number and same unit; only px (the user unit) may be dropped, and a zero may lose any unit.
+func VerifSVGLengthUnits(n int) {
+	at := []string{"width", "height", "x", "y", "rx", "font-size", "stroke-width", "r", "dx"}[vChoice("attr", 9)]
+	unit := []string{"", "px", "pt", "pc", "mm", "cm", "in", "em", "ex", "%", "PT", "Px", "pX", "rem", "q"}[vChoice("unit", 15)]
+	d := vBytes("d", n)
+	for _, c := range d {
+		vAssume('0' <= c && c <= '9')
+	}
+	frac := vBool("frac")
+	num := append([]byte(nil), d...)
+	if frac {
+		num = append(append([]byte(nil), d...), ".5"...)
+	}
+	in := append(append(append(append([]byte("<svg><rect "), at...), "=\""...), num...), unit...)
+	in = append(in, "\"/></svg>"...)
+	w := &vWriter{}
+	err := (&Minifier{}).Minify(minify.New(), w, &vReader{b: append(make([]byte, 0, len(in)+1), in...)}, nil)
+	vReach("after-call")
+	vOutput("out", w.buf)
+	vAssert(err == nil, "accepted")
+	pre := "<svg><rect " + at + "=\""
+	vAssert(len(w.buf) > len(pre) && string(w.buf[:len(pre)]) == pre, "attribute kept: "+string(w.buf))
+	val := w.buf[len(pre):]
+	k := 0
+	for k < len(val) && val[k] != '"' {
+		k++
+	}
+	val = val[:k]
+	j := 0
+	for j < len(val) && (refDigit(val[j]) || val[j] == '.' || val[j] == '-' || val[j] == '+' || (val[j] == 'e' || val[j] == 'E') && j+1 < len(val) && (refDigit(val[j+1]) || val[j+1] == '-' || val[j+1] == '+')) {
+		j++
+	}
+	onum, ounit := val[:j], val[j:]
+	vAssert(refIsNumber(onum, true), "value starts with a number: "+string(val))
+	a, b := refParse(num), refParse(onum)
+	vAssert(refSame(a, b), "same number")
+	lu := make([]byte, len(unit))
+	for i := 0; i < len(unit); i++ {
+		c := unit[i]
+		if 'A' <= c && c <= 'Z' {
+			c += 32
+		}
+		lu[i] = c
+	}
+	lo := make([]byte, len(ounit))
+	for i, c := range ounit {
+		if 'A' <= c && c <= 'Z' {
+			c += 32
+		}
+		lo[i] = c
+	}
+	if string(lu) == "px" {
+		lu = nil
+	}
+	if string(lo) == "px" {
+		lo = nil
+	}
+	vAssert(string(lo) == string(lu) || a.zero && len(lo) == 0, "same unit (px is the user unit, a zero may lose its unit): "+string(in)+" => "+string(w.buf))
+	vReach("end")
+}
